@@ -456,6 +456,15 @@ fn known_open<'a>(known: &'a [KnownFinding], id: &str, v: &Violation) -> Option<
     })
 }
 
+fn wal_index(path: &Path) -> Option<u64> {
+    use std::io::Read;
+    let mut head = [0u8; 64];
+    let n = std::fs::File::open(path).ok()?.read(&mut head).ok()?;
+    let text = std::str::from_utf8(&head[..n]).ok()?;
+    let rest = text.strip_prefix("{\"index\":")?;
+    rest.split(|c: char| !c.is_ascii_digit()).next()?.parse().ok()
+}
+
 fn nworkers() -> u64 {
     if let Ok(s) = std::env::var("VERIF_WORKERS") {
         if let Ok(n) = s.parse::<u64>() {
@@ -535,11 +544,9 @@ fn supervise(check: &'static dyn Check, tier: Tier) -> i32 {
                 }
                 None => {
                     all = false;
-                    let idx = std::fs::read(dir.join(format!("wal-{shard}.json")))
-                        .ok()
-                        .and_then(|b| serde_json::from_slice::<Value>(&b).ok())
-                        .and_then(|v| v["index"].as_u64())
-                        .unwrap_or(u64::MAX);
+                    // only the head of the write-ahead file is looked at here (a scale scenario is
+                    // megabytes of JSON): it starts with {"index":<n>,
+                    let idx = wal_index(&dir.join(format!("wal-{shard}.json"))).unwrap_or(u64::MAX);
                     if idx != *last_idx {
                         *last_idx = idx;
                         *last_change = Instant::now();
